@@ -4,9 +4,13 @@
 package main
 
 import (
+	"crypto/ecdsa"
+	"crypto/elliptic"
+	"crypto/rand"
 	"fmt"
 
 	cbor "github.com/fxamacker/cbor/v2"
+	cose "github.com/veraison/go-cose"
 	"github.com/veraison/psatoken"
 )
 
@@ -34,6 +38,20 @@ func main() {
 		fmt.Println(n, "components: validate+encode:", len(buf), "bytes, err =", err)
 		_, err = psatoken.DecodeClaimsFromCBOR(buf)
 		fmt.Println(n, "components: decode: err =", err)
+		// C19: the same claims-set on an Evidence: ValidateAndSign succeeds, Verify on the
+		// signing Evidence succeeds, and the token it returned cannot be decoded back
+		key, _ := ecdsa.GenerateKey(elliptic.P256(), rand.Reader)
+		signer, _ := cose.NewSigner(cose.AlgorithmES256, key)
+		ev := &psatoken.Evidence{}
+		if err := ev.SetClaims(c); err != nil {
+			fmt.Println(n, "components: SetClaims: err =", err)
+			continue
+		}
+		tok, err := ev.ValidateAndSign(signer)
+		fmt.Println(n, "components: ValidateAndSign:", len(tok), "bytes, err =", err)
+		fmt.Println(n, "components: Verify on the signing Evidence: err =", ev.Verify(key.Public()))
+		_, err = psatoken.DecodeEvidenceFromCOSE(tok)
+		fmt.Println(n, "components: DecodeEvidenceFromCOSE(token): err =", err)
 	}
 	// C04: a conformant token padded with unknown keys beyond 131072 pairs is rejected
 	for _, extra := range []int{131072 - 7, 131072 - 6} {
@@ -56,7 +74,7 @@ func main() {
 		}
 		m := map[int]interface{}{
 			265: "http://arm.com/psa/2.0.0", 2394: 1, 2395: 0x3000, 2396: mv, 10: mv, 256: iid,
-			2399: []interface{}{map[int]interface{}{2: mv, 5: mv}},
+			2399:   []interface{}{map[int]interface{}{2: mv, 5: mv}},
 			100000: v,
 		}
 		buf, _ := cbor.Marshal(m)
